@@ -443,6 +443,7 @@ func c12Families(tier string) []explore.Family {
 		}
 	}})
 
+	fams = append(fams, c12LiveFamily())
 	fams = append(fams, explore.Family{Name: "capture-equivalence-fragments", Count: int64(len(frags) * len(frags) * len(binds)), Run: func(i int64, r *explore.Rec) {
 		rx := radix{i}
 		b, f2, f1 := binds[rx.next(len(binds))], frags[rx.next(len(frags))], frags[rx.next(len(frags))]
